@@ -1,8 +1,3 @@
 ---- MODULE Queue_MC ----
 EXTENDS Queue
-\* threads 1,2 requesters (clients 1,2), 3 responder and 4,5 closers on client 3 (subscribed to topic 1)
-MCClientOf == [x \in 1..5 |-> IF x <= 2 THEN x ELSE 3]
-MCSubOf == [c \in 1..3 |-> IF c = 3 THEN 1 ELSE 0]
-\* requester 2 shares the subscriber's client (a module that both serves and asks)
-MCClientOfShared == [x \in 1..5 |-> IF x = 1 THEN 1 ELSE 3]
 ====
